@@ -76,7 +76,8 @@ pub proof fn lemma_norm_unique(b: int, s1: int, e1: int, s2: int, e2: int)
 }
 
 /// what `cmp` / `==` on FBig values may rely on: a finite value of limited precision p carries at most p + 1 digits
-/// (C03); infinities are canonical; exponents / digit counts / precisions below 2^60 (isize overflow outside the contract)
+/// (C03; guaranteed by every public producer since `with_precision` rounds unlimited sources, /repo 73390f4; `from_repr`
+/// demands it); infinities are canonical; exponents / digit counts / precisions below 2^60 (isize overflow outside the contract)
 pub open spec fn fbig_cmp_pre<R: Round, const B: Word>(f: FBig<R, B>) -> bool {
     let (S, E, p) = (f.repr.significand.v(), f.repr.exponent as int, f.context.precision);
     canonical_inf(S, E)
